@@ -69,6 +69,13 @@ fn c18_work(seed: u64, tier: Tier, idx: u64) -> Option<Scenario> {
         }
         i -= n as u64;
     }
+    // every message sequence up to length 3 (quick) / 5 (thorough) over the lifecycle alphabet
+    let max_len = if tier == Tier::Quick { 3 } else { 5 };
+    let n = c18::all_sequences_len(max_len);
+    if i < n {
+        return c18::sequence(seed, i, max_len);
+    }
+    i -= n;
     if i < random {
         Some(c18::generate(seed, i))
     } else {
@@ -138,7 +145,7 @@ static DEFS: &[PropDef] = &[PropDef {
     level: "exploration",
     work: c01_work,
     judge: c01::judge,
-    rule: "each scenario = one editing session over 1..2 documents (grammar-directed valid SPL, mutated SPL, Unicode text, token soup) with up to 40 didChange steps: structural edits (rename, literal change, insert/delete statement, declaration, parameter, `ref`, comment, white space), typing bursts (one notification per keystroke), arbitrary byte-range replacements, batches of 1..5; after every step the broker's AnalyzedSource (observer hook) is compared with AnalyzedSource::new of the same text (tokens, syntax tree incl. attached diagnostics, symbol table, errors()) and the step's publishDiagnostics with the fresh diagnostics; steps are classified valid/broken before and after by the fresh analysis; non-trivial = at least one fault/back-pressure/yield fired and a frame was emitted; distinct = distinct interleaving signature",
+    rule: "each scenario = one editing session over 1..2 documents (grammar-directed valid SPL, mutated SPL, Unicode text, token soup, tiny documents) with up to 40 didChange steps; 30 % of the sessions are neighbourhoods of the committed regression scenarios (same edits re-targeted by token index onto a text with other trivia in the token gaps, other declarations in front, undo); otherwise structural edits (rename, literal change, insert/delete statement, declaration, parameter, `ref`, comment, white space), typing bursts (one notification per keystroke), arbitrary byte-range replacements, look-ahead probes (trivia + change of the first/second token behind a node end + undo), recovery probes (junk in front of a statement start), boundary-case edits (everything deleted/replaced, offset 0, empty change), batches of 1..5; after every step the broker's AnalyzedSource (observer hook) is compared with AnalyzedSource::new of the same text (tokens, syntax tree incl. attached diagnostics, symbol table, errors()) and the step's publishDiagnostics with the fresh diagnostics; the analysed text must be a text the edits produce; every feature answer is compared with a second run in which each didChange is replaced by didClose + didOpen of the resulting text; steps are classified valid/broken before and after by the fresh analysis; non-trivial = at least one fault/back-pressure/yield fired and a frame was emitted; distinct = distinct interleaving signature",
     assumptions: &[
         "AnalyzedSource::new is the reference (its own correctness is C03/C04, not applicable here)",
         "the token layer is judged by C07; a token difference is reported there and only noted here",
@@ -160,7 +167,7 @@ static DEFS: &[PropDef] = &[PropDef {
     level: "exploration",
     work: c02_work,
     judge: c02::judge,
-    rule: "each scenario = one complete client session (handshake .. shutdown, exit) over 1..2 documents drawn from four generators (grammar-directed valid SPL, mutated SPL with unterminated literals/comments, token soup, arbitrary Unicode incl. CRLF) with 1..25 steps: didChange batches from the structural / arbitrary / overshooting / full-replacement families, typing bursts (one notification per keystroke, every intermediate state half-typed), close/reopen, and requests of all 13 methods at token starts/insides/ends, white space, line ends, overshooting columns and lines, for open, closed and never opened documents; delivered under seeded chunking, schedules, channel capacities 1..33, stdout back-pressure and client stalls; non-trivial = at least one fault/back-pressure/yield fired and a frame was emitted; distinct = distinct interleaving signature",
+    rule: "first a nesting ladder (10 nesting shapes at depth 48, each session executed in a child process on a 2 MiB stack) and a position sweep (a small program cut behind each of its tokens, all 13 methods at every column of the last lines); then seeded scenarios: each = one complete client session (handshake .. shutdown, exit) over 1..2 documents drawn from four generators (grammar-directed valid SPL, mutated SPL with unterminated literals/comments, token soup, arbitrary Unicode incl. CRLF) with 1..25 steps: didChange batches from the structural / arbitrary / overshooting / full-replacement families, typing bursts (one notification per keystroke, every intermediate state half-typed), close/reopen, copy-pasted declarations and renames to names already in use, notifications for unknown documents, and requests of all 13 methods at the cursor while typing, at token starts/insides/ends, white space, line ends, overshooting columns and lines, for open, closed and never opened documents; delivered under seeded chunking, schedules, channel capacities 1..33, stdout back-pressure and client stalls; non-trivial = at least one fault/back-pressure/yield fired and a frame was emitted; distinct = distinct interleaving signature",
     assumptions: &[
         "release semantics as shipped (overflow wraps, debug_assert off): an arithmetic overflow that only panics in debug builds is a wrong answer, not a crash",
         "well-formed requests only (valid params for the method, integer ids)",
@@ -173,7 +180,7 @@ static DEFS: &[PropDef] = &[PropDef {
     level: "exploration",
     work: c08_work,
     judge: c08::judge,
-    rule: "each scenario = one editing session over 1..3 documents (arbitrary Unicode text with 2-/3-/4-byte characters, CR, LF, CRLF; generated SPL with astral characters left of identifiers on the same line; broken SPL; empty) with 1..14 steps: didChange with 1..5 content changes chained on the client's replica (byte-range replacements converted to UTF-16 positions, structural edits, overshooting columns/lines, range-less full replacements), $/verif/text probes, prepareRename/hover at identifiers, close/reopen; delivered under a seeded segmentation, schedule and capacities; after every step the broker's document (H5 observer), every probe answer and every reported range are compared with the client's replica; ranges are fed back as positions in a second run; non-trivial = at least one fault/back-pressure/yield fired and a frame was emitted; distinct = distinct interleaving signature",
+    rule: "each scenario = one editing session over 1..3 documents (arbitrary Unicode text with 2-/3-/4-byte characters, CR, LF, CRLF; generated SPL with astral characters left of identifiers on the same line; broken SPL; empty) with 1..14 steps: didChange with 1..5 content changes chained on the client's replica (byte-range replacements converted to UTF-16 positions, structural edits, overshooting columns/lines, range-less full replacements), $/verif/text probes, prepareRename/hover at identifiers, close/reopen; delivered under a seeded segmentation, schedule and capacities; after every step the broker's document (H5 observer), every probe answer, every reported range and the ranges of every published diagnostic are compared with the client's replica; document versions are numbered in three client styles; ranges are fed back as positions in a second run; non-trivial = at least one fault/back-pressure/yield fired and a frame was emitted; distinct = distinct interleaving signature",
     assumptions: &[
         "client replica rules = LSP 3.17: UTF-16 code-unit columns; line ends \\n, \\r\\n, \\r; a column past the end of a line is the end of that line; a line past the last line is the end of the document (vscode-languageserver TextDocument); a range-less change replaces the whole text",
         "positions inside a surrogate pair and reversed ranges are ill-formed and never generated",
@@ -186,7 +193,7 @@ static DEFS: &[PropDef] = &[PropDef {
     level: "exploration",
     work: c20_work,
     judge: c20::judge,
-    rule: "each scenario = one open-loop client session of 10..400 pipelined messages over 2..5 URIs (distinct, differing only in scheme, only in directory, only in authority): didOpen/didChange (1..3 content changes)/didClose/reopen, $/verif/text probes, feature requests, unknown requests/notifications, with or without the publishDiagnostics capability; every written content carries a fresh identifier so each read is attributable to one write; seeded schedule policy, channel capacities 1..33, stdout capacity 1 B..1 MiB, read sizes, client stalls of 100..200000 ticks; judged against a sequential map model in send order; non-trivial = at least one fault/back-pressure/yield fired and a frame was emitted; distinct = distinct interleaving signature",
+    rule: "each scenario = one open-loop client session of 10..400 pipelined messages over 2..5 URIs (distinct, differing only in scheme, only in directory, only in authority): didOpen/didChange (1..3 content changes)/didClose/reopen, $/verif/text probes, feature requests (also for closed and just reopened documents), unknown requests/notifications, notification-only stretches and documents that go quiet early, with or without the publishDiagnostics capability; every written content carries a fresh identifier so each read is attributable to one write; seeded schedule policy, channel capacities 1..33, stdout capacity 1 B..1 MiB, read sizes, client stalls of 100..200000 ticks; judged against a sequential map model in send order, a lock-step run of the same session, and - for a sample of the feature answers - a fresh server that only knows the current content of that document; non-trivial = at least one fault/back-pressure/yield fired and a frame was emitted; distinct = distinct interleaving signature",
     assumptions: &[
         "documents and edits are ASCII, in-range and line/token aligned, so that position conversion (C08) and incremental analysis (C01) are not what is being varied; a diagnostics mismatch on a document whose server-side text is right is attributed to C01",
         "the specification is sequential in the client's send order (one client, one FIFO stream), so the history check is linear; no linearizability search is needed",
@@ -198,7 +205,7 @@ static DEFS: &[PropDef] = &[PropDef {
     level: "exploration",
     work: c18_work,
     judge: c18::judge,
-    rule: "each scenario = one client session over the lifecycle alphabet {initialize, initialized, supported request, $/verif/text, unknown request, didOpen/didChange/didClose, unknown notification, shutdown, exit} of length <= 12 in arbitrary order, with a seeded delivery (segmentation, read sizes, schedule, channel capacities 1..33, stdout capacity) and optionally one fault: end of input after a byte prefix (systematically every prefix of the corpus sessions, seeded otherwise), client closing its read end, client stalling; judged against the 5-state lifecycle reference model; non-trivial = at least one fault/back-pressure/yield fired and a frame was emitted; distinct = distinct interleaving signature",
+    rule: "sweeps first: end of input (and, in a second pass, a read error) after every byte prefix of the corpus sessions, and EVERY message sequence up to length 3 (quick) / 5 (thorough) over a 10-letter lifecycle alphabet; then seeded scenarios: each = one client session over the lifecycle alphabet {initialize, initialized, supported request, $/verif/text, unknown request, didOpen/didChange/didClose, unknown notification, shutdown, exit} of length <= 12 in arbitrary order, with a seeded delivery (segmentation, read sizes, schedule, channel capacities 1..33, stdout capacity) and request ids 1,2,3,.. or zero / negative / large / descending / strided, frames with or without the optional Content-Type header, and optionally one fault: end of input or a read error after a byte prefix, client closing its read end, client stalling; judged against the 5-state lifecycle reference model; non-trivial = at least one fault/back-pressure/yield fired and a frame was emitted; distinct = distinct interleaving signature",
     assumptions: &[
         "request ids are integers that fit i32 (io::Request.id)",
         "between the initialize answer and `initialized` the property prescribes nothing but exactly one in-order response per request (the code answers ServerNotInitialized)",
